@@ -265,25 +265,16 @@ size_t varintFloatEncode(uint8_t *output, const double *values,
     packBits(signs, count, 1, p);
     p += (count + 7) / 8;
 
-    /* Write exponents based on mode */
-    if (mode == VARINT_FLOAT_MODE_INDEPENDENT) {
-        /* Each exponent independently */
-        for (size_t i = 0; i < count; i++) {
-            if (!special_flags[i]) {
-                /* Encode exponent as signed value */
-                varintWidth width;
-                uint64_t zigzag = varintDeltaZigZag(exponents[i]);
-                varintExternalUnsignedEncoding(zigzag, width);
-                *p++ = (uint8_t)width;
-                varintExternalPutFixedWidth(p, zigzag, width);
-                p += width;
-            }
-        }
-    } else if (mode == VARINT_FLOAT_MODE_COMMON_EXPONENT) {
-        /* Find min/max exponents for non-special values */
-        int16_t min_exp = INT16_MAX;
-        int16_t max_exp = INT16_MIN;
-        size_t normal_exp_count = 0;
+    /* COMMON_EXPONENT stores every exponent as a one-byte offset from the
+     * smallest one. Find min/max exponents for non-special values; if their
+     * spread does not fit in a byte, encode the exponents independently
+     * instead and record that mode in the header (the decoder is unchanged
+     * and existing data stays readable). */
+    varintFloatEncodingMode exp_mode = mode;
+    int16_t min_exp = INT16_MAX;
+    int16_t max_exp = INT16_MIN;
+    size_t normal_exp_count = 0;
+    if (mode == VARINT_FLOAT_MODE_COMMON_EXPONENT) {
         for (size_t i = 0; i < count; i++) {
             if (!special_flags[i]) {
                 if (exponents[i] < min_exp) {
@@ -296,6 +287,27 @@ size_t varintFloatEncode(uint8_t *output, const double *values,
             }
         }
 
+        if (normal_exp_count > 0 && max_exp - min_exp > UINT8_MAX) {
+            exp_mode = VARINT_FLOAT_MODE_INDEPENDENT;
+            output[3] = (uint8_t)exp_mode;
+        }
+    }
+
+    /* Write exponents based on mode */
+    if (exp_mode == VARINT_FLOAT_MODE_INDEPENDENT) {
+        /* Each exponent independently */
+        for (size_t i = 0; i < count; i++) {
+            if (!special_flags[i]) {
+                /* Encode exponent as signed value */
+                varintWidth width;
+                uint64_t zigzag = varintDeltaZigZag(exponents[i]);
+                varintExternalUnsignedEncoding(zigzag, width);
+                *p++ = (uint8_t)width;
+                varintExternalPutFixedWidth(p, zigzag, width);
+                p += width;
+            }
+        }
+    } else if (exp_mode == VARINT_FLOAT_MODE_COMMON_EXPONENT) {
         /* Write base exponent (min) only if there are normal values */
         if (normal_exp_count > 0) {
             const uint64_t zigzag = varintDeltaZigZag(min_exp);
